@@ -23,6 +23,7 @@ EXPLANATION = ("a: crate-wide acquisition edges over KnowledgeBase's three RwLoc
                "on the rules guard is followed by index.clear() and a full enumerate() rebuild loop (clear pairs with clear). "
                "d: no mutation event precedes an Err exit. e: exactly one `*version += 1` on paths with a mutation, none on others. "
                "f: sorts are from the stable family, keyed on salience only, descending (odd number of reversals).")
+EXPLANATION += ' f (added): no operation that moves rules past each other regardless of salience (swap_remove, swap, reverse, rotate) is applied to the rule vector: a stable sort afterwards restores salience order, not insertion order among equals. The sort key may be computed by a helper or passed as a function item.'
 FLOORS = {"acquisitions": 24, "mutating_methods": 4, "sort_sites": 2}
 
 KB = "engine::knowledge_base::KnowledgeBase"
